@@ -308,6 +308,21 @@ func crafted(c *core.Ctx, r *core.Rand, i int) {
 		}
 		try("ttlv", val, item(0x42000D, 2, []byte{0, 0, 0, 5, 1, 2, 3, 4}, 4, 0), "nonzero-int-padding")
 	case 1: // typed messages: unknown trailing fields inside structures, non-zero padding
+		if (i/10)%8 == 3 {
+			// an Import request (1.4) with every optional element present, in the three encodings
+			key := r.Bytes(16)
+			m := kmip.RequestMessage{Header: kmip.RequestHeader{ProtocolVersion: kmip.V1_4, BatchCount: 1}, BatchItem: []kmip.RequestBatchItem{{Operation: kmip.OperationImport,
+				RequestPayload: &payloads.ImportRequestPayload{UniqueIdentifier: "imp", ReplaceExisting: true, KeyWrapType: kmip.NotWrapped,
+					Attribute: []kmip.Attribute{{AttributeName: kmip.AttributeNameObjectType, AttributeValue: kmip.ObjectTypeSymmetricKey}},
+					Object: &kmip.SymmetricKey{KeyBlock: kmip.KeyBlock{KeyFormatType: kmip.KeyFormatTypeRaw, CryptographicAlgorithm: kmip.CryptographicAlgorithmAES, CryptographicLength: 128,
+						KeyValue: &kmip.KeyValue{Plain: &kmip.PlainKeyValue{KeyMaterial: kmip.KeyMaterial{Bytes: &key}}}}}}}}}
+			if tree, err := refmodel.Tree(&m, 4); err == nil {
+				rt := c02.TargetByName("RequestMessage")
+				try("ttlv", rt, wire.Gen(tree), "import-all-options")
+				try("xml", rt, xtree.WriteXML(tree), "import-all-options")
+				try("json", rt, xtree.WriteJSON(tree), "import-all-options")
+			}
+		}
 		data, t := c02.SeedMessage(r, "ttlv")
 		try("ttlv", t, data, "seed")
 		tree, err := wire.Parse(data)
@@ -665,7 +680,7 @@ func Spec() *core.Spec {
 			"for each accepted value v: enc(v) must decode and re-encode to identical bytes in the same encoding and in each other encoding in which v's text strings and dates are representable (predicates computed by the harness from v's binary tree). " +
 			"distinct = distinct accepted input byte strings",
 		Assumptions: []string{"representable in XML = valid UTF-8 consisting of XML 1.0 Chars; in JSON = valid UTF-8; dates within years 1..9999 for both", "TZ=UTC"},
-		Required:    []string{"accepted_inputs.ttlv", "accepted_inputs.xml", "accepted_inputs.json", "fixed_point_checks", "route.ttlv->xml", "route.json->ttlv", "route.xml->json", "crafted.json-lexical", "crafted.xml-lexical", "crafted.oasis", "large_inputs", "crafted.explicit-zero", "crafted.deep-nesting", "reencodings_after_other_messages", "concurrent_forwardings"},
+		Required:    []string{"accepted_inputs.ttlv", "accepted_inputs.xml", "accepted_inputs.json", "fixed_point_checks", "route.ttlv->xml", "route.json->ttlv", "route.xml->json", "crafted.json-lexical", "crafted.xml-lexical", "crafted.oasis", "large_inputs", "crafted.explicit-zero", "crafted.import-all-options", "crafted.deep-nesting", "reencodings_after_other_messages", "concurrent_forwardings"},
 		EvalCounter: "fixed_point_checks",
 		// a data race inside the codec while messages are forwarded concurrently (both stacks in package ttlv) means one
 		// message may be re-encoded with another one's content
